@@ -34,6 +34,13 @@ type Cfg struct {
 	Yield    int      `json:"yield"` // >0: the stores yield the processor up to this many times inside every call
 	// SaveFailFrom: the message store refuses every Save from this one on (0: never)
 	SaveFailFrom int `json:"saveFailFrom"`
+	// Creds: which credentials an initiator is configured with: "" = user name and password, "useronly", "passonly", "none"
+	Creds string `json:"creds"`
+	// SaveFailOnly: the message store refuses exactly this Save (0: none)
+	SaveFailOnly int `json:"saveFailOnly"`
+	// Stamp: the application registers an outgoing handler that amends every message (sets SenderSubID), the documented purpose
+	// of HandleOutgoing: what is transmitted, stored and later retransmitted is the amended message
+	Stamp bool `json:"stamp"`
 }
 
 // failFromStore: an application store that starts failing (a disk that filled up, a database that went away)
@@ -42,12 +49,13 @@ type failFromStore struct {
 	mu   sync.Mutex
 	n    int
 	from int
+	only int
 }
 
 func (f *failFromStore) Save(id fix.StorageID, msg simplefixgo.SendingMessage, seq int) error {
 	f.mu.Lock()
 	f.n++
-	fail := f.n >= f.from
+	fail := (f.from > 0 && f.n >= f.from) || (f.only > 0 && f.n == f.only)
 	f.mu.Unlock()
 	if fail {
 		return errors.New("store: cannot save")
@@ -139,6 +147,7 @@ func Opts(allowed []string) *session.Opts {
 			HeartbeatBuilder:     fixgen.Heartbeat{}.New(),
 			TestRequestBuilder:   fixgen.TestRequest{}.New(),
 			ResendRequestBuilder: fixgen.ResendRequest{}.New(),
+			SequenceResetBuilder: fixgen.SequenceReset{}.New(), // optional in the library; configured as a complete application would
 		},
 		Tags: &messages.Tags{
 			MsgType:         mustInt(fixgen.FieldMsgType),
@@ -207,8 +216,8 @@ func NewRig(cfg Cfg) (*Rig, error) {
 		ys := &yieldingStore{Storage: r.Store, n: cfg.Yield}
 		cs, ms = ys, ys
 	}
-	if cfg.SaveFailFrom > 0 {
-		ms = &failFromStore{MessageStorage: ms, from: cfg.SaveFailFrom}
+	if cfg.SaveFailFrom > 0 || cfg.SaveFailOnly > 0 {
+		ms = &failFromStore{MessageStorage: ms, from: cfg.SaveFailFrom, only: cfg.SaveFailOnly}
 	}
 	var err error
 	if cfg.Role == "acceptor" {
@@ -227,7 +236,8 @@ func NewRig(cfg Cfg) (*Rig, error) {
 		r.H = simplefixgo.NewInitiatorHandler(ctx, fixgen.FieldMsgType, cfg.Buf)
 		r.S, err = session.NewInitiatorSession(r.H, Opts(allowed), &session.LogonSettings{
 			TargetCompID: peerID, SenderCompID: ourID,
-			HeartBtInt: cfg.HbCfg, EncryptMethod: cfg.EncCfg, Username: "user", Password: "good",
+			HeartBtInt: cfg.HbCfg, EncryptMethod: cfg.EncCfg,
+			Username: map[string]string{"": "user", "useronly": "user"}[cfg.Creds], Password: map[string]string{"": "good", "passonly": "good"}[cfg.Creds],
 			CloseTimeout: time.Duration(cfg.CloseMs) * time.Millisecond,
 		}, cs, ms)
 	}
@@ -256,6 +266,14 @@ func NewRig(cfg Cfg) (*Rig, error) {
 		r.mu.Unlock()
 		return true
 	})
+	if cfg.Stamp {
+		r.H.HandleOutgoing(simplefixgo.AllMsgTypes, func(m simplefixgo.SendingMessage) bool {
+			if hd, ok := m.HeaderBuilder().(*fixgen.Header); ok {
+				hd.SetSenderSubID("DESK-7")
+			}
+			return true
+		})
+	}
 	// application-side outgoing handler: lets the peer's next message arrive while a local call is inside the send path
 	r.H.HandleOutgoing(simplefixgo.AllMsgTypes, func(m simplefixgo.SendingMessage) bool {
 		r.mu.Lock()
